@@ -25,6 +25,8 @@ deriving DecidableEq, Repr, Inhabited
 
 def RawFrame.ok (f : RawFrame) : Prop := f.sid.length = 4 ∧ f.payload.length < 16777216
 
+instance (f : RawFrame) : Decidable f.ok := by unfold RawFrame.ok; infer_instance
+
 def RawFrame.header (f : RawFrame) : Bytes :=
   [UInt8.ofNat (f.payload.length / 65536), UInt8.ofNat (f.payload.length / 256 % 256), UInt8.ofNat (f.payload.length % 256),
    f.typ, f.flags] ++ f.sid
